@@ -1,5 +1,7 @@
 """C14 — fingerprints (DESIGN §5 C14)."""
 import hashlib
+import json
+import os
 import random
 
 import fastavro
@@ -7,7 +9,7 @@ from fastavro.schema import fingerprint, to_parsing_canonical_form
 from fastavro._schema_common import FINGERPRINT_ALGORITHMS, JAVA_FINGERPRINT_MAPPING
 
 import gen
-from core import Run
+from core import Run, REPO
 from driver import run_batch
 from wire import exc_class
 from props.common import scale, load_corpus
@@ -86,6 +88,56 @@ def run(tier, seed):
         elif m.get("ok") != exp:
             case["model"], case["spec"] = m, exp
             run.fail(case, "correspondence: model fingerprint differs from the bit-serial reference", kind="correspondence")
+    # ---- first use from several threads at once, in a fresh interpreter (whatever is prepared lazily on the first
+    # fingerprint call — tables, registries — is then prepared under contention)
+    import subprocess
+    import sys as _sys
+    child = (
+        "import sys, json, threading\n"
+        "sys.setswitchinterval(1e-6)\n"
+        "from fastavro.schema import fingerprint\n"
+        "texts = json.loads(sys.argv[1])\n"
+        "algs = json.loads(sys.argv[2])\n"
+        "N = 10\n"
+        "bar = threading.Barrier(N)\n"
+        "out = [None] * N\n"
+        "def work(i):\n"
+        "    bar.wait()\n"
+        "    res = []\n"
+        "    for a in algs:\n"
+        "        for t in texts:\n"
+        "            try:\n"
+        "                res.append(fingerprint(t, a))\n"
+        "            except Exception as e:\n"
+        "                res.append('ERR:' + type(e).__name__)\n"
+        "    out[i] = res\n"
+        "ths = [threading.Thread(target=work, args=(i,)) for i in range(N)]\n"
+        "[t.start() for t in ths]; [t.join() for t in ths]\n"
+        "after = [fingerprint(t, a) for a in algs for t in texts]\n"
+        "print(json.dumps({'threads': out, 'after': after}))\n")
+    ctexts = ["", "\"int\"", "é", "x" * 300] + [t for t in texts[300:306] if "\ud800" > t or True][:6]
+    ctexts = [t for t in ctexts if all(ord(ch) < 0xD800 or ord(ch) > 0xDFFF for ch in t)]
+    calgs = ["CRC-64-AVRO", "md5", "SHA-256"]
+    expect = []
+    for a in calgs:
+        for t in ctexts:
+            expect.append(spec_hex(t.encode("utf-8")) if a == "CRC-64-AVRO" else hashlib.new(JAVA_FINGERPRINT_MAPPING.get(a, a), t.encode("utf-8")).hexdigest())
+    for trial in range(scale(tier, 3)):
+        env = dict(os.environ, PYTHONPATH=REPO)
+        try:
+            pr = subprocess.run([_sys.executable, "-c", child, json.dumps(ctexts), json.dumps(calgs)], env=env, capture_output=True, timeout=120)
+            res = json.loads(pr.stdout.decode())
+        except Exception as e:  # noqa
+            run.notes.append("concurrent first-use trial could not run: %r" % (e,))
+            continue
+        run.cov["evaluations"] += 1
+        run.tag("concurrent-first-use")
+        wrong = [i for i, r_ in enumerate(res["threads"]) if r_ != expect]
+        if wrong or res["after"] != expect:
+            run.fail({"threads_wrong": wrong[:5], "sample": (res["threads"][wrong[0]][:4] if wrong else res["after"][:4]), "expected": expect[:4],
+                      "tags": ["concurrent-first-use"]},
+                     "fingerprints computed by several threads at first use (or afterwards in that process) differ from the specification's", kind="oracle")
+            break
     # ---- named digests and unknown names
     fixed = [a for a in algs if a != "CRC-64-AVRO" and not a.startswith("shake_")]
     sample = texts[:40] + rnd.sample(texts, min(60, len(texts)))
